@@ -2,7 +2,7 @@
 # tools/verify_seed.sh Cxx k : confirm a mutation-author result (patch applies, suite unchanged,
 # demo PASS pristine / FAIL mutated) in the author's scratch worktree, then store it under seeded/.
 id=$1; k=$2
-w=${3:-1}; if [ "$w" = 2 ]; then wt=/tmp/mut2-$id; out=/tmp/mut2-$id-out; else wt=/tmp/mut-$id; out=/tmp/mut-$id-out; fi; kk=$(( k + 2*(w-1) ))
+w=${3:-1}; if [ "$w" = 1 ]; then wt=/tmp/mut-$id; out=/tmp/mut-$id-out; else wt=/tmp/mut$w-$id; out=/tmp/mut$w-$id-out; fi; kk=$(( k + 2*(w-1) ))
 cd $wt || exit 2
 git checkout -q -- . ; git status --short | grep -q . && { echo "worktree dirty"; exit 2; }
 p0=$(cd $out && PYTHONPATH=$wt /venv/bin/python demo$k.py >/dev/null 2>&1; echo $?)
